@@ -98,6 +98,9 @@ def generate(rng, tier, index):
             "bundle": bundles.gen_bundle(rng, recipe["n"] + 3, allow=allow, p_each=p_each),
             "no_grad": rng.random() < (0.8 if recipe["family"] == "kissgp" else 0.2),
             "moved": rng.random() < 0.4,
+            # a per-observation `noise=` passed although the likelihood is homoskedastic (what BoTorch's fantasize(observation_noise=...)
+            # does): the documented model is still "an exact GP with the same hyperparameters on the concatenated data"
+            "stray_noise": rng.random() < 0.12,
         }
 
     def gen_bad(node=None):
@@ -164,6 +167,7 @@ class Node:
         self.parent = parent
         self.alive = True
         self.iter = False
+        self.stray_noise = False  # created with a `noise=` kwarg although the likelihood is homoskedastic (or descends from such a model)
         self.sd = None  # the hyper-parameters this model was created with / last retrained to (tracked by the harness)
 
     @property
@@ -391,7 +395,7 @@ def execute(history):
                 R = scratch_model(recipe, node.sd, node)
                 rr = predict(R, args, op)
                 out.stats["oracle_comparisons"] += 1
-                cls = {"family": fam, "depth": min(node.depth, 2), "lik": recipe["lik"], "quantity": None}
+                cls = {"family": fam, "depth": min(node.depth, 2), "lik": recipe["lik"], "quantity": None, "stray_noise": bool(node.stray_noise)}
                 if rm[0] == "ok":
                     for q in sorted(rm[1]):
                         out.log.add("obs%d:%s" % (i, q), rm[1][q])
@@ -466,6 +470,9 @@ def execute(history):
                         tag = "fantasize[%s,d%d]" % (op["pattern"], min(node.depth, 2))
                         inputs_f, yf, noise_f, full_in, full_tg, full_noise = fantasy_data(recipe, node, op, xcache)
                         kw = {} if noise_f is None else {"noise": noise_f}
+                        if noise_f is None and op.get("stray_noise") and recipe["lik"] == "gaussian" and fam == "default":
+                            kw = {"noise": 0.05 + 0.5 * zoo.rand(op["seed"] + 2, *yf.shape)}
+                            out.stats["probe:noise_kwarg_on_homoskedastic_model"] += 1
                         arg_in = inputs_f if len(inputs_f) > 1 else inputs_f[0]
                         with bundles.entered(op.get("bundle", [])):
                             if op.get("no_grad"):
@@ -474,6 +481,7 @@ def execute(history):
                             else:
                                 fm = M.get_fantasy_model(arg_in, yf, **kw)
                         new_node = Node(fm, full_in, full_tg, full_noise, node.depth + 1, node)
+                        new_node.stray_noise = bool(kw) and noise_f is None
                         tag = "fantasize[%s,d%d]" % (op["pattern"], min(node.depth, 2))
                     else:
                         kind = op["kind"]
@@ -524,6 +532,7 @@ def execute(history):
                         failed=bool(failed),
                     )
                 if new_node is not None:
+                    new_node.stray_noise = new_node.stray_noise or node.stray_noise
                     new_node.sd = node.sd  # "the same hyperparameters": those of the source at the creation
                     nodes.append(new_node)
                     created = True
@@ -552,7 +561,7 @@ def check_fantasy_object(out, i, recipe, root_sd, node, op, tol, lanczos=False):
     fam = recipe["family"]
     fm = node.model
     src = node.parent.model
-    cls = {"family": fam, "lik": recipe["lik"], "pattern": op.get("pattern", "same")}
+    cls = {"family": fam, "lik": recipe["lik"], "pattern": op.get("pattern", "same"), "stray_noise": bool(getattr(node, "stray_noise", False))}
     # data
     try:
         ok = len(fm.train_inputs) == len(node.inputs) and all(
